@@ -377,6 +377,8 @@ def classify_loop(fx, body, L):
     e = strip_casts(expand(end, fx, 2, layout.noinl(fx)))
     if e[0] == 'call' and e[1] in T.LEN or e[0] == 'len':
         return 'memory', 'range bounded by the length of an in-memory collection'
+    if T.enumerate_index_of(e) is not None:
+        return 'memory', 'range bounded by the index of an enumeration over an in-memory collection'
     reads = [x for x in walk(e) if common.is_read(x)]
     wide = [x for x in reads if common.read_kind(x) in ('dword', 'long')]
     small_param = False
@@ -433,7 +435,7 @@ def run(ctx):
             reason = 'allocation sink: bounded/justified under C12 (abort-on-OOM is a C12 finding, cross-referenced)'
             rule = 'P5'
         if reason is None:
-            reason = T.guard_index(s) or T.guard_unwrap(s)
+            reason = T.guard_index(s) or T.guard_index_enumerate(s) or T.guard_unwrap(s)
             rule = 'P2'
         ok = reason is not None
         if reason is None:
